@@ -688,7 +688,7 @@ func normJSON(v interface{}) interface{} {
 
 func runC12(id string) int {
 	r := verdict.New(id, *tier, "exploration")
-	r.Rule = "exhaustive (type, property) pairs and (property, value kind) pairs over the ontology (kinds = every type, every literal kind, IRI), each decoded from a generated document and inspected through the typed accessors; the programmatic paths too (SetType/AppendType of every type on every property accept exactly the range; Set<P> then Get<P> and Serialize on a fresh value); literal kinds sampled (fixed boundary samples + seeded random canonical forms); non-trivial = pair where the ontology gives the type the property / admits the kind (an accessor must answer); distinct by pair (+sample)"
+	r.Rule = "exhaustive (type, property) pairs and (property, value kind) pairs over the ontology (kinds = every type, every literal kind, IRI), each decoded from a generated document and inspected through the typed accessors; the programmatic paths too (SetType/AppendType of every type on every property accept exactly the range; Set<P> then Get<P> and Serialize on a fresh value); literal kinds sampled (fixed boundary samples + seeded random canonical forms); durations from P280Y to P3600Y in one, two and month+day components (beyond time.Duration: kept as written is the only right outcome); strings next to the lexical space of an instant; numbers with a fractional part in count properties; non-trivial = pair where the ontology gives the type the property / admits the kind (an accessor must answer); distinct by pair (+sample)"
 	r.Exhaustive = true
 	r.Assumptions = []string{"ontology oracle parses astool/*.jsonld correctly", "literal semantics table (hand-written RFC3339 / duration parsers) is correct", "lexically ambiguous samples (e.g. an IRI given to a string-ranged property, any object given to a typeless-ranged property) are judged by membership in the admissible kinds, not by one particular kind"}
 	c := &c12{r: r}
